@@ -3,9 +3,14 @@ import TapkeeVerif.Proofs.Covariance
 /-!
 # C06 — PCA projects onto the leading principal subspace of the sample covariance
 
-Model (`Model/Pca.lean`, `Model/Project.lean`): `computeMean`, `covarianceUpper` (the two `rankUpdate`s into the upper
-triangle), `mirrorLower` (the mirror line added by fix F-PCA-TRI), `covarianceMatrix`, `denseSym` / `upperView` (what
-the Dense / Randomized solver reads), `embedRows P μ X` (row `i` = `Pᵀ (x_i − μ)`).
+Model (`Model/Pca.lean`, `Model/Project.lean`): `computeMean`, `covarianceUpper X μ` (one `rankUpdate` per CENTRED sample
+`x − μ` into the upper triangle, then `/= N` — the two-pass form of fix F-PCA-CANCEL, /repo 307bc32), `mirrorLower` (the
+mirror line added by fix F-PCA-TRI), `covarianceMatrix`, `denseSym` / `upperView` (what the Dense / Randomized solver
+reads), `embedRows P μ X` (row `i` = `Pᵀ (x_i − μ)`).
+Because the model centres first exactly as the code does, `covarianceUpper_upper` is now a definitional unfolding; the
+algebraic content is in `centred_moment_shift` (second moment about ANY point = Cov + rank-one offset term; `μ = 0` gives the
+former one-pass form `E[xxᵀ] − m mᵀ`, `one_pass_form_eq_cov` — the defect F-PCA-CANCEL was rounding, not algebra),
+`centred_sum_zero`, `covarianceMatrix_eq_cov` (mirror + symmetry), `dense_sees_cov`, `randomized_sees_cov`, `pca_optimal`.
 The eigensolver enters as the contract `IsTopEig (cov X) P lam` (certificate-checked on every run by `model_c06`).
 All theorems hold over every linearly ordered field (`ℝ`, `ℚ`), every `N`, `D`, `d`.
 -/
@@ -15,10 +20,29 @@ open TapkeeVerif TapkeeVerif.Spectral Matrix Finset
 variable {K : Type} [Field K] [LinearOrder K] [IsStrictOrderedRing K]
 variable {N D d : Nat}
 
-/-- the upper triangle accumulated by the two `rankUpdate`s is the sample covariance `E[xxᵀ] − μμᵀ = Cov` -/
+/-- the upper triangle accumulated from the centred samples is the sample covariance `(1/N) Σ (x−m)(x−m)ᵀ` — definitional
+    now that the model (like the code since 307bc32) centres first; kept as the anchor of the triangle bookkeeping -/
 theorem covarianceUpper_upper (X : Mat N D K) (a b : Fin D) (hab : a ≤ b) :
     covarianceUpper X (computeMean X) a b = cov X a b :=
   TapkeeVerif.covarianceUpper_upper X a b hab
+
+/-- **what `compute_covariance_matrix(…, mean, …)` accumulates for an ARBITRARY `mean` argument**: the covariance plus the
+    rank-one term of the offset between the true mean and the argument — so the routine returns the covariance exactly when
+    it is handed the training mean, and a wrong mean (a stale or differently computed vector) shows up as a rank-one error -/
+theorem covarianceUpper_shift (X : Mat N D K) (μ : Vec D K) (hN : 0 < N) (a b : Fin D) (hab : a ≤ b) :
+    covarianceUpper X μ a b = cov X a b + (computeMean X a - μ a) * (computeMean X b - μ b) := by
+  simp only [covarianceUpper, if_pos hab, sumFin_eq_sum]
+  exact centred_moment_shift X μ hN a b
+
+/-- the former one-pass form is the same matrix in exact arithmetic: `E[x xᵀ] − m mᵀ = Cov` (the defect F-PCA-CANCEL,
+    fixed in /repo 307bc32, was catastrophic cancellation in `double`, not a wrong formula) -/
+theorem one_pass_form_eq_cov (X : Mat N D K) (a b : Fin D) :
+    (∑ i, X i a * X i b) / (N : K) - computeMean X a * computeMean X b = cov X a b :=
+  second_moment_sub_eq_cov X a b
+
+/-- the centred samples sum to zero -/
+theorem centred_sum_zero (X : Mat N D K) (hN : 0 < N) (a : Fin D) : ∑ i, centred X i a = 0 :=
+  TapkeeVerif.centred_sum_zero X hN a
 
 /-- `compute_covariance_matrix` returns the sample covariance, both triangles -/
 theorem covarianceMatrix_eq_cov (X : Mat N D K) : covarianceMatrix X (computeMean X) = cov X :=
